@@ -26,6 +26,22 @@ MUTANTS = [
     ("C15", "areneigh-no-wrap-test", P + "rdgridspace.py", "        if self._boundary_conditions[\"z\"] == \"periodical\" :\n            dz = min(dz, abs(self.d-dz))", "        dz = min(dz, abs(self.d-dz))", "C15.DISP"),
     ("C01", "get-edge-directed", P + "rdgraphspace.py", "            if (edge.i==i and edge.j==j) or (edge.i==j and edge.j==i) :", "            if (edge.i==i and edge.j==j) :", "C01.NEIGH"),
     ("C01", "graph-neighbours-above-only", P + "kinetics.py", "        if j != position :\n            if system.space.get_edge(position, j) is not None :", "        if j > position :\n            if system.space.get_edge(position, j) is not None :", "C01.NEIGH"),
+    # ---- rules added in round 6
+    ("C01", "rate-skips-zero-net-species", E + "SimulationAlgorithm3DBase.hpp", "        for(int s=0; s<n_species; s++)\n            r *= pow(mesh_x[mesh_index*n_species+s], sub[s*n_reactions+reaction_index]);", "        for(int s=0; s<n_species; s++)\n            {\n            if(sto[s*n_reactions+reaction_index] == 0) continue;\n            r *= pow(mesh_x[mesh_index*n_species+s], sub[s*n_reactions+reaction_index]);\n            }", "C01.PHASE"),
+    ("C09", "t0-sample-overwritten", P + "librdengine.py", "            data[i] = data_[i]\n            \n        return UnitArray(value=data, ", "            data[i] = data_[i]\n        data[0:self._script.system.state_size()] = self._script.system.state.value\n            \n        return UnitArray(value=data, ", "C09.FETCH-PY"),
+    ("C06", "convert-fast-path", P + "units.py", "        return convert_unitvalue(self, u)", "        if type(u) == Units and u.sys == self.units.sys :\n            return self.copy()\n        return convert_unitvalue(self, u)", "C06.DIMGUARD"),
+    ("C10", "released-returns-minus-one", E + "engine.cpp", "extern \"C\" int engineexport_iterate()\n    {\n    if(global_algo_freed) return 0;", "extern \"C\" int engineexport_iterate()\n    {\n    if(global_algo_freed) return -1;", "C10.STATUS"),
+    ("C11", "finalize-deletes-both", E + "engine.cpp", "    if (global_space_type == 0)\n      delete global_grid_algo;\n    else\n      delete global_graph_algo;", "    delete global_grid_algo;\n    delete global_graph_algo;", "C11.FINALIZE"),
+    ("C11", "progress-int-division", E + "SimulationAlgorithm3DBase.hpp", "    void CheckTMax()\n      {", "    int SampleProgress()\n      {\n      return 100*sample_pos/n_samples;\n      }\n\n    void CheckTMax()\n      {", "C11.INTDIV"),
+    ("C13", "volume-of-cell-zero", P + "rdsystem.py", "        state[i] = (cell_species_density * cell_vol.get_at(i)).convert(units_system).value", "        state[i] = (cell_species_density * cell_vol.get_at(0)).convert(units_system).value", "C13.TAG"),
+    ("C13", "chemostats-view-of-argument", P + "rdsystem.py", "        v = np.array(v, dtype=int)\n", "        v = np.asarray(v, dtype=int)\n", "C13.ALIAS"),
+    ("C14", "normal-branch-not-integral", E + "engine.cpp", "      mesh_x_sto[i] = std::max(0.0, std::floor(std::normal_distribution<double>(mesh_x[i], sqrt(mesh_x[i]))(rng)));", "      mesh_x_sto[i] = std::max(0.0, std::normal_distribution<double>(mesh_x[i], sqrt(mesh_x[i]))(rng));", "C14.INTEGER"),
+    ("C14", "selection-weighted-by-drawn-state", E + "engine.cpp", "        cumul += mesh_x[i*n_species+s];", "        cumul += mesh_x_sto[i*n_species+s];", "C14.COUNT"),
+    ("C15", "flux-over-odd-directions", E + "Euler3D.hpp", "              for (int n=0; n<6; n++)", "              for (int n=1; n<6; n+=2)", "C15.NBR-USE"),
+    ("C16", "volume-sanity-check", P + "coarsegrain.py", "    check_index_map_validity(index_map, space)\n", "    check_index_map_validity(index_map, space)\n    if grid.cell_vol*len(index_map) != grid.cell_vol*grid.size() :\n        raise ValueError(\"inconsistent volumes\")\n", "C16.ACCEPT"),
+    ("C17", "single-sample-shortcut", P + "rdoutput.py", "        t = UnitValue(t, self.t.units, convert=True)", "        if self.nsamples() == 1 :\n            return 0\n        t = UnitValue(t, self.t.units, convert=True)", "C17.UNITS"),
+    ("C20", "bc-tested-lowercased", P + "rdgridspace.py", "            if boundary_conditions[axis] not in [\"reflecting\", \"periodical\"] :", "            if str(boundary_conditions[axis]).lower() not in [\"reflecting\", \"periodical\"] :", "C20.ENUM"),
+    ("C05", "dimensionless-unwrapped", P + "units.py", "            UnitValue(1, \"µm\") > UnitValue(1, \"µm/s\") # ValueError\n\n        \"\"\"\n\n        if type(v) == UnitValue :", "            UnitValue(1, \"µm\") > UnitValue(1, \"µm/s\") # ValueError\n\n        \"\"\"\n\n        if type(v) == UnitValue and v.units.dim == UnitsDimensions() :\n            return self.value > v.value\n        if type(v) == UnitValue :", "C05.TAG"),
     # ---- rules added in round 5
     ("C01", "bc-z-gets-y", P + "librdengine.py", "ctypes.c_char_p((script.system.space.get_boundary_conditions()[\"z\"]).encode()),", "ctypes.c_char_p((script.system.space.get_boundary_conditions()[\"y\"]).encode()),", "C01.AXIS"),
     ("C02", "module-level-cache", P + "librdengine.py", "def build_stoechiometric_difference_matrix(species, reactions) :", "_STO_CACHE = {}\ndef build_stoechiometric_difference_matrix(species, reactions) :\n    _STO_CACHE[len(species)] = len(reactions)", "C02.MEMO"),
